@@ -100,6 +100,9 @@ def main(ctx):
             jobs.append((s, sz))
         if len(s["ends"]) >= 2 and len(jobs) % 7 == 0:
             jobs.append((s, per, 0.002))          # the response delay option: later requests arrive while a reply is being delayed
+    # Register Session when the random source happens to draw 0: the handle must be non-zero all the same
+    for s in [x for x in singles + pairs if x["sc"]["frames"][0]["kind"] == "register"][:12]:
+        jobs.append((s, [s["ends"][-1]], None, "zero-draw"))
     lines = core.pmap(serverlib.exec_session, jobs, chunksize=8)
     for (s, sz), ln in zip([j[:2] for j in jobs], lines):
         fr = s["sc"]["frames"]
